@@ -1,0 +1,32 @@
+//go:build verif
+// +build verif
+
+// Contracts for the deductive verifier in /verif (govc). Comment-only: no executable code.
+package local
+
+// DeleteInstanceState removes the instance from EVERY global flow control of EVERY upstream of this store (C18).
+//@ const FCS = &unbox(value, "*upstreamCondition").flowControls
+//@ const removedMonotone = forall g ref, i string :: {i in stateremoved[g]} old(i in stateremoved[g]) ==> (i in stateremoved[g])
+//@ const onlyThisInstance = forall g ref, i string :: {i in stateremoved[g]} (i in stateremoved[g]) && !old(i in stateremoved[g]) ==> i == instance
+
+//@ func (*localStore).DeleteInstanceState$1$1 props C18
+//@   iterator-body syncmap
+//@   modifies setstatecalls, stateremoved
+//@   ensures [ret] result
+//@   ensures [each_removed] instance in stateremoved[value]
+//@   ensures [monotone] removedMonotone
+//@   ensures [only_this_instance] onlyThisInstance
+
+//@ func (*localStore).DeleteInstanceState$1 props C18
+//@   iterator-body syncmap
+//@   modifies setstatecalls, stateremoved
+//@   ensures [ret] result
+//@   ensures [each_cluster_cleared] typeis(value, "*upstreamCondition") && unbox(value, "*upstreamCondition") != nil ==> forall k2 ref :: {smhas(FCS, k2)} smhas(FCS, k2) ==> (instance in stateremoved[smget(FCS, k2)])
+//@   ensures [monotone] removedMonotone
+//@   ensures [only_this_instance] onlyThisInstance
+
+//@ func (*localStore).DeleteInstanceState props C18
+//@   requires [typed] forall k ref :: {smhas(&s.clusters, k)} smhas(&s.clusters, k) ==> typeis(smget(&s.clusters, k), "*upstreamCondition") && unbox(smget(&s.clusters, k), "*upstreamCondition") != nil
+//@   modifies setstatecalls, stateremoved
+//@   ensures [removed_everywhere] forall k ref, k2 ref :: {smhas(&s.clusters, k), smhas(&unbox(smget(&s.clusters, k), "*upstreamCondition").flowControls, k2)} smhas(&s.clusters, k) && smhas(&unbox(smget(&s.clusters, k), "*upstreamCondition").flowControls, k2) ==> (instance in stateremoved[smget(&unbox(smget(&s.clusters, k), "*upstreamCondition").flowControls, k2)])
+//@   ensures [only_this_instance] onlyThisInstance
